@@ -584,6 +584,23 @@ compact_theta_sketch_alloc<A> compact_theta_sketch_alloc<A>::deserialize(std::is
   }
 }
 
+// The result grows as the data arrives, so a corrupt count in a short stream fails
+// without allocating much more memory than the stream holds
+template<typename A>
+std::vector<uint64_t, A> compact_theta_sketch_alloc<A>::read_entries(std::istream& is, uint32_t num_entries, const A& allocator) {
+  if (!is.good()) throw std::runtime_error("error reading from std::istream");
+  const uint32_t block_size = 1 << 16;
+  std::vector<uint64_t, A> entries(allocator);
+  entries.reserve(std::min(num_entries, block_size));
+  while (entries.size() < num_entries) {
+    const size_t offset = entries.size();
+    entries.resize(offset + std::min<size_t>(num_entries - offset, block_size));
+    read(is, entries.data() + offset, sizeof(uint64_t) * (entries.size() - offset));
+    if (!is.good()) throw std::runtime_error("error reading from std::istream");
+  }
+  return entries;
+}
+
 template<typename A>
 compact_theta_sketch_alloc<A> compact_theta_sketch_alloc<A>::deserialize_v1(
     uint8_t, std::istream& is, uint64_t seed, const A& allocator)
@@ -594,10 +611,8 @@ compact_theta_sketch_alloc<A> compact_theta_sketch_alloc<A>::deserialize_v1(
   const auto num_entries = read<uint32_t>(is);
   read<uint32_t>(is); //unused
   const auto theta = read<uint64_t>(is);
-  std::vector<uint64_t, A> entries(num_entries, 0, allocator);
+  std::vector<uint64_t, A> entries = read_entries(is, num_entries, allocator);
   bool is_empty = (num_entries == 0) && (theta == theta_constants::MAX_THETA);
-  if (!is_empty) read(is, entries.data(), sizeof(uint64_t) * entries.size());
-  if (!is.good()) throw std::runtime_error("error reading from std::istream");
   return compact_theta_sketch_alloc(is_empty, true, seed_hash, theta, std::move(entries));
 }
 
@@ -616,27 +631,18 @@ compact_theta_sketch_alloc<A> compact_theta_sketch_alloc<A>::deserialize_v2(
   } else if (preamble_longs == 2) {
     const uint32_t num_entries = read<uint32_t>(is);
     read<uint32_t>(is); // unused
-    std::vector<uint64_t, A> entries(num_entries, 0, allocator);
+    std::vector<uint64_t, A> entries = read_entries(is, num_entries, allocator);
     if (num_entries == 0) {
       return compact_theta_sketch_alloc(true, true, seed_hash, theta_constants::MAX_THETA, std::move(entries));
     }
-    read(is, entries.data(), entries.size() * sizeof(uint64_t));
-    if (!is.good()) throw std::runtime_error("error reading from std::istream");
     return compact_theta_sketch_alloc(false, true, seed_hash, theta_constants::MAX_THETA, std::move(entries));
   } else if (preamble_longs == 3) {
     const uint32_t num_entries = read<uint32_t>(is);
     read<uint32_t>(is); // unused
     const auto theta = read<uint64_t>(is);
     bool is_empty = (num_entries == 0) && (theta == theta_constants::MAX_THETA);
-    std::vector<uint64_t, A> entries(num_entries, 0, allocator);
-    if (is_empty) {
-      if (!is.good()) throw std::runtime_error("error reading from std::istream");
-      return compact_theta_sketch_alloc(true, true, seed_hash, theta, std::move(entries));
-    } else {
-      read(is, entries.data(), sizeof(uint64_t) * entries.size());
-      if (!is.good()) throw std::runtime_error("error reading from std::istream");
-      return compact_theta_sketch_alloc(false, true, seed_hash, theta, std::move(entries));
-    }
+    std::vector<uint64_t, A> entries = read_entries(is, num_entries, allocator);
+    return compact_theta_sketch_alloc(is_empty, true, seed_hash, theta, std::move(entries));
   } else {
     throw std::invalid_argument(std::to_string(preamble_longs) + " longs of premable, but expected 1, 2, or 3");
   }
@@ -662,10 +668,8 @@ compact_theta_sketch_alloc<A> compact_theta_sketch_alloc<A>::deserialize_v3(
       if (preamble_longs > 2) theta = read<uint64_t>(is);
     }
   }
-  std::vector<uint64_t, A> entries(num_entries, 0, allocator);
-  if (!is_empty) read(is, entries.data(), sizeof(uint64_t) * entries.size());
+  std::vector<uint64_t, A> entries = read_entries(is, num_entries, allocator);
   const bool is_ordered = flags_byte & (1 << flags::IS_ORDERED);
-  if (!is.good()) throw std::runtime_error("error reading from std::istream");
   return compact_theta_sketch_alloc(is_empty, is_ordered, seed_hash, theta, std::move(entries));
 }
 
